@@ -212,6 +212,12 @@ func (hm *HostsMap) rebuildMatchFiles() (matchFiles []*MatchFile) {
 			e1 := entryList[i]
 			e2 := entryList[j]
 			if e1.headers.equals(e2.headers) {
+				// overlaps() ignores case, so a nested path must come first despite its case
+				p1 := strings.ToLower(e1.path)
+				p2 := strings.ToLower(e2.path)
+				if p1 != p2 {
+					return p1 > p2
+				}
 				return e1.path > e2.path
 			}
 			return e1.hasFilter()
@@ -301,12 +307,13 @@ func (hm *HostsMap) rebuildMatchFiles() (matchFiles []*MatchFile) {
 // hostname and has distinct match types
 // Exact is removed from the check because it always has priority and never overlaps
 // Regex is removed because all of its entries are processed together, giving priority to longer regexps
+// The remaining pairs have a Begin entry, which matches ignoring case, so case is ignored here as well
 func overlaps(e1, e2 *HostsMapEntry) bool {
 	return e1.match != e2.match &&
 		e1.path != e2.path &&
 		e1.match != MatchExact && e2.match != MatchExact &&
 		e1.match != MatchRegex && e2.match != MatchRegex &&
-		strings.HasPrefix(e1.path, e2.path)
+		strings.HasPrefix(strings.ToLower(e1.path), strings.ToLower(e2.path))
 }
 
 func findOrCreateMatchFileIfOverlaps(order *list.List, e1, e2 *HostsMapEntry) {
